@@ -679,7 +679,8 @@ def build_queries(bindings, known: set[str]) -> tuple[list[Query], list[str]]:
     a, b = z3.Const("x0", F64), z3.Const("x1", F64)
     q = z3.fpDiv(RNE, a, b)
     one = z3.FPVal(1.0, F64)
-    region = z3.And(z3.fpGT(a, z3.FPVal(0.0, F64)), z3.fpGT(b, z3.FPVal(0.0, F64)), z3.Not(z3.fpIsInf(a)), z3.Not(z3.fpIsInf(b)),
+    region = z3.And(z3.fpGEQ(a, z3.FPVal(1.0, F64)), z3.fpLEQ(a, z3.FPVal(100.0, F64)),
+                    z3.fpGEQ(b, z3.FPVal(0.01, F64)), z3.fpLEQ(b, z3.FPVal(1.0, F64)),
                     q == z3.fpRoundToIntegral(RTN, q), z3.fpGEQ(q, one), z3.fpLEQ(q, z3.FPVal(2.0 ** 52, F64)),
                     z3.fpGT(z3.fpFMA(RNE, q, b, z3.fpNeg(a)), z3.FPVal(0.0, F64)))
     qm1 = z3.fpSub(RNE, q, one)
